@@ -2514,6 +2514,14 @@ hsStateDetermined:
                                    (int) hsLen);
                     return MATRIXSSL_ERROR;
                 }
+                /* The fragment must be completely present in this record. */
+                if ((uint32) (end - c) < fragLen)
+                {
+                    ssl->err = SSL_ALERT_DECODE_ERROR;
+                    psTraceIntDtls("Fragment length %d exceeds the record\n",
+                                   (int) fragLen);
+                    return MATRIXSSL_ERROR;
+                }
 
 /*
                 Need to save the hs header info aside as well so that we may
